@@ -30,8 +30,8 @@ func catchHasIssuePath(n *model.Node) bool {
 			return
 		}
 		for _, t := range x.Tests {
-			if t.Opts.Path != "" {
-				f = true
+			if t.Opts.Path != "" || t.Complex == "hand" || t.Complex == "handpath" {
+				f = true // (a hand-built issue of a complex test carries the path its author wrote, not the node's)
 			}
 		}
 		if x.ReqOpts != nil && x.ReqOpts.Path != "" {
@@ -196,6 +196,9 @@ func TestC05(t *testing.T) {
 				if n.Catch != nil {
 					for i := range n.Tests {
 						n.Tests[i].Opts.Path = ""
+						if n.Tests[i].Complex != "" {
+							n.Tests[i].Complex = "ctx"
+						}
 					}
 					if n.ReqOpts != nil {
 						n.ReqOpts.Path = ""
